@@ -49,6 +49,11 @@ CLAIMS = {
   text="Proved in Lean for every network, order and store: the forward pass never changes a proxy (C05_proxy_frozen); for a topological order whose senders are frozen or outside the pass, each node's new state is its step function on the same-step states of its parents and on the feedback value determined by the store at the START of the step, wherever the sender stands (C05_forward_fixpoint); every iteration of the free-running loop ends with all model proxies = current states and no pending clamp (C05_step_synced), so at every step the receiver reads its sender's state of step t-1 - its pre-existing output at the first step, and for a sender outside the graph its unchanged state (C05_fb_prev_step); a pending forced value is what the receiver reads and it is consumed by that read (C05_forced_read, C05_clamp_once); entering with_feedback clamps a receiver with the value keyed by itself or by its sender (C05_enter_forced); the shift yields zero at step 0 then Y[t-1], or Y[t] without shift (C05_forced_shift). Tied to the code by random models with 1-2 receivers, sender downstream / upstream (incl. Input nodes) / outside the graph, plain node or unfitted Ridge, histories of free runs, forced runs (keyed by sender or receiver, shift on/off, several sequences), calls (with a reused, in-place overwritten input buffer), forced calls and resets: every node's output at every step and every state after every operation are compared exactly with the model and with a direct oracle that rebuilds each node from its descriptor and feeds each receiver, via a stub sender, the value the property prescribes.",
   note="Trusted: Lean kernel + standard axioms; lean/RpyModel/Dataflow.lean; the harness. Not in the model: sub-model senders (finding K1) and list senders (K10); teacher-forced fit/train is exercised by C06's harness.",
   design="§6 C05"),
+ "C07": dict(
+  technique="Lean 4 proof (list induction for node runs and the run loop; hand-over lemma clean-then-reload = identity on synced stores; gating arithmetic for online training) + twin-instance differential runs and exact comparison with the model",
+  text="Proved in Lean: a reservoir / Delay / NVAR run over xs ++ ys returns the rows of the run over xs followed by those of the run over ys from the memory the first left, and the same final memory (C07_reservoir_chunks, C07_delay_chunks, C07_nvar_chunks); for every network with feedback connections, order and clean store, the free run of xs ++ ys gives the concatenated observations of running xs then ys and the same final store, and each run leaves a clean store, so any chunking including pieces of length one is covered by induction (C07_model_chunks); a free call is the one-step run (C07_call_eq_run1); online training on xs ++ ys equals training on xs then ys for learn_every = 1, and for learn_every = k when k divides |xs| and no piece has length one (C07_train_chunks, C07_train_chunks_k - the gate restarts in every call, which is why the hypotheses are needed). Tied to the code by building every case twice from the same descriptor and comparing, bit for bit, one run against random chunkings executed by run() or successive call()s, final state(), and a probe run afterwards - for every node class and for the random feedback models of C05 - plus online training (RLS / LMS / FORCE, alone or behind a reservoir) whole vs pieces; the single runs are also compared exactly with the Lean model.",
+  note="Trusted: Lean kernel + standard axioms; the Lean models; the harness. Finding K3 (ESN.run never advances the node's state) is reported as KNOWN-FINDING; run = successive calls is checked normally for the ESN node.",
+  design="§6 C07"),
 }
 
 NOT_YET = "check not built yet in this revision (planned, see DESIGN.md §11)"
